@@ -2,7 +2,7 @@
 import itertools
 import json
 
-from .. import flat
+from .. import flat, gen
 from ..refschema import RefSchema
 
 ID = "C14"
@@ -272,7 +272,12 @@ def case(ctx, rnd, i):
     for nm in names:
         mt = S.marks[nm]
         if "k" in mt.attrs:
-            for v in rnd.sample([0, 1, 2, "x", [1], {"a": 1}], 2):
+            vs = rnd.sample([0, 1, 2, "x", [1], {"a": 1}, "", []], 2)
+            if rnd.random() < 0.5:
+                # a value and its nearest neighbour ([1] / [1, 0], {"a": 1} / {"a": 1, "n0": 0}, 0 / "" ...)
+                nv = gen.near_value(rnd, vs[0])
+                vs[1] = nv if nv is not None else vs[1]  # None counts as "not given" for a required attribute
+            for v in vs:
                 U.append(mt.create({"k": v}))
         else:
             U.append(mt.create())
